@@ -16,7 +16,7 @@ EXPLANATION = (
     'with no effect after it.  Does not decide the reply grammar over all strings nor that '
     'sorted() yields the requested order.')
 ASSUMPTIONS = ['int(), range(), sorted(), enumerate() behave as documented']
-MINIMUM = {'R13.1': 4, 'R13.2': 2, 'R13.3': 3, 'R13.4': 2, 'R13.5': 1}
+MINIMUM = {'R13.1': 4, 'R13.2': 2, 'R13.3': 3, 'R13.4': 2, 'R13.5': 1, 'R13.6': 1}
 
 
 def check(ctx):
@@ -153,6 +153,28 @@ def check(ctx):
                 ctx.ob('R13.2', 'scope test matches at a path-component boundary', ok, node=n,
                        message='entries are offered when their location merely starts with %s '
                                '(/a/foo also selects /a/foobar)' % short(arg, 80))
+    # ---- R13.6 the requested directory is normpath(join(cwd, argument)): gluing a
+    # separator to the cwd yields '//' for cwd '/', which POSIX normpath keeps, and no
+    # location starts with '///'
+    seen6 = set()
+    for w, n, recv in scope:
+        c, pol = unwrap_not(n.data['cond'], n.data['pol'])
+        for x in walk(c):
+            if isinstance(x, MCall) and x.name == 'startswith' and has_unquote(x.recv) and x.args:
+                for y in walk(x.args[0]):
+                    if is_call(y, 'os.path.normpath') and cid(y) not in seen6:
+                        seen6.add(cid(y))
+                        glued = [z for z in walk(y.args[0]) if isinstance(z, Bin) and
+                                 z.op == '+' and ((isinstance(strip(z.right), ExtRef) and
+                                                   strip(z.right).qualname in
+                                                   ('os.sep', 'os.path.sep')) or
+                                                  is_const(strip(z.right), '/'))]
+                        ctx.ob('R13.6', 'the scope directory is normpath(join(cwd, argument)) '
+                                        'without a glued separator', not glued, node=n,
+                               message='the directory whose entries are offered is %s: run '
+                                       'from "/" this is "//" (normpath keeps two leading '
+                                       'slashes), which equals neither "/" nor any prefix of a '
+                                       'location, so nothing is offered' % short(y, 120))
     # ---- R13.5 every piece of the reply is examined
     reply_calls = [n for n in b.nodes('ext') if n.data['fn'] in ('input', 'raw_input')]
     rids = set(cid(n.data['result']) for n in reply_calls)
